@@ -14,6 +14,14 @@
 // All decisions are event-ordered: servers answer (or cancel the context, or close the connection) when the
 // request arrives; speculative runs hold every request until the harness releases one. The only clocks are the
 // driver's own request timeout for the "never answered" fate (3 s, at most one per scenario) and watchdogs.
+//
+// Idempotence is a flag per QUERY and per BATCH ENTRY (op field: one 0/1 per entry, every position pattern of 0..5
+// entries): a statement that is not idempotent must run as one execution whatever speculative policy it carries —
+// in `ex` such statements also get a policy whose delay elapses at once (the trace must still be the plain retry
+// loop's), in `spec` the single request is held while a wrongly started speculation would bring more (conc.go).
+// Concurrent executions of one statement (conc.go: `spec`, `specr`) are judged on counts read at quiescence; the
+// answers of all outstanding executions are released at the same instant (barrier) or at once, so that attempts of
+// several executions complete — and are counted — together.
 package main
 
 import (
